@@ -17,9 +17,11 @@ the SAME visitor helpers as on the `Value` side (`SJ.Model.FromValue`: `visitInt
 `bytesOfInts`, `rustParseInt`), as it is the same serde code in Rust.
 
 Scalars that `de.rs` parses with the code the byte-step machine transcribes are run on the machine
-(`runPfx` = `Stream.runPrefix` with two additions, see below): number literals (`parse_integer`),
-validated strings (`parse_str`), the scalar consumed by `peek_invalid_type`, `ignore_value`
-(target `.ignored`) and `deserialize_any` with `Value`'s visitor (target `.value`).
+(`runPfx` = `Stream.runPrefix` with two additions, see below): validated strings (`parse_str`),
+the scalar consumed by `peek_invalid_type`, `ignore_value` (target `.ignored`) and `deserialize_any`
+with `Value`'s visitor (target `.value`). Number literals for numeric targets have a scanner of their
+own here (`scanNumber`: `parse_integer` → `ParserNumber`, shared conversion `Model.Num.convert…`) so that
+the accumulated value is available to the prefix proofs; `scan_integer128` likewise (`scanInteger128`).
 
 **Errors.** A parser error carries its `ErrorCode` and the index its position counts
 (`Error::syntax(code, line, column)`); a visitor error (`invalid type`, `invalid value`,
@@ -131,8 +133,6 @@ def ofVisit (r : R) (rest : Bytes) (pos : Nat) : TOut :=
 
 def valEnv (env : Env) : Machine.Env := { cfg := env.cfg, src := env.src, tgt := .value }
 def ignEnv (env : Env) : Machine.Env := { cfg := env.cfg, src := env.src, tgt := .ignored }
-/-- `parse_integer` is the non-`arbitrary_precision` number parser in every build -/
-def numEnv (env : Env) : Machine.Env := { cfg := { env.cfg with ap := false }, src := env.src, tgt := .value }
 
 /-- the value started at padding height `t` is complete in state `s` -/
 def completed (t : Nat) (s : St) : Option JV :=
